@@ -132,6 +132,12 @@ pub enum Step16 {
     FailOn(u8, u8),
     Read,
     Okay(u8),
+    /// a failing call made with a NULL error out-pointer (the caller does not want the
+    /// description): nothing of this thread's may change, nothing of another thread's either
+    FailNull(u8),
+    /// a failing call whose error variable holds, on entry, the pointer another live thread of
+    /// the run got from its last failure (an out-parameter's previous content is arbitrary)
+    FailPre(u8),
 }
 
 #[derive(Clone, Debug, Serialize, Deserialize)]
@@ -184,6 +190,8 @@ fn big_packet() -> Vec<u8> {
 struct CbCtx {
     table: *const FnTable,
     err: *const CErr,
+    /// pass a NULL error out-pointer to the calls made inside the callback
+    null_err: bool,
     kind: u8,
     rc: i32,
     native_text: Option<String>,
@@ -193,27 +201,28 @@ unsafe extern "C" fn cb16(ctx: *mut c_void, it: *const SectionIterator) -> bool 
     let ctx = &mut *(ctx as *mut CbCtx);
     let t = &*ctx.table;
     let it = &mut *(it as *mut SectionIterator);
+    let errp: *mut *const CErr = if ctx.null_err { std::ptr::null_mut() } else { &mut ctx.err };
     match ctx.kind {
         8 => {
-            let r1 = (t.delete)(it, &mut ctx.err);
-            let r2 = (t.delete)(it, &mut ctx.err);
+            let r1 = (t.delete)(it, errp);
+            let r2 = (t.delete)(it, errp);
             ctx.rc = if r1 == 0 { r2 } else { r1 };
         }
         9 => {
             let mut nm = vec![0x40u8];
             nm.extend(vec![b'a'; 70]);
             nm.push(0);
-            ctx.rc = (t.set_raw_name)(it, &mut ctx.err, nm.as_ptr(), nm.len());
+            ctx.rc = (t.set_raw_name)(it, errp, nm.as_ptr(), nm.len());
         }
         10 => {
             let nm = [0xc0u8, 0x0c];
-            ctx.rc = (t.set_raw_name)(it, &mut ctx.err, nm.as_ptr(), nm.len());
+            ctx.rc = (t.set_raw_name)(it, errp, nm.as_ptr(), nm.len());
         }
         11 => {
             let nm = b"a..b";
             ctx.rc = (t.set_name)(
                 it,
-                &mut ctx.err,
+                errp,
                 nm.as_ptr() as *const _,
                 nm.len(),
                 std::ptr::null(),
@@ -236,7 +245,7 @@ unsafe extern "C" fn cb16(ctx: *mut c_void, it: *const SectionIterator) -> bool 
                     v
                 }
             };
-            ctx.rc = (t.set_raw_name)(it, &mut ctx.err, nm.as_ptr(), nm.len());
+            ctx.rc = (t.set_raw_name)(it, errp, nm.as_ptr(), nm.len());
         }
         100 => {
             // succeeding calls inside a callback
@@ -366,7 +375,7 @@ fn native_fail_text(kind: u8, bytes: &[u8]) -> Option<String> {
 }
 
 /// Performs a failing call through the C table on the calling thread. Returns (rc, expected text).
-unsafe fn table_fail(t: &FnTable, err: &mut *const CErr, kind: u8, bytes: &[u8]) -> (i32, Option<String>) {
+unsafe fn table_fail(t: &FnTable, err: *mut *const CErr, kind: u8, bytes: &[u8]) -> (i32, Option<String>) {
     let mut pp = match DNSSector::new(bytes.to_vec()).and_then(|d| d.parse()) {
         Ok(p) => p,
         Err(_) => return (0, None),
@@ -375,7 +384,7 @@ unsafe fn table_fail(t: &FnTable, err: &mut *const CErr, kind: u8, bytes: &[u8])
 }
 
 /// Same, on a packet that outlives the call.
-unsafe fn table_fail_on(t: &FnTable, err: &mut *const CErr, kind: u8, pp_ext: &mut ParsedPacket) -> (i32, Option<String>) {
+unsafe fn table_fail_on(t: &FnTable, err: *mut *const CErr, kind: u8, pp_ext: &mut ParsedPacket) -> (i32, Option<String>) {
     let bytes_now: Vec<u8> = match &pp_ext.packet {
         Some(b) => b.clone(),
         None => return (0, None),
@@ -445,13 +454,16 @@ unsafe fn table_fail_on(t: &FnTable, err: &mut *const CErr, kind: u8, pp_ext: &m
         8..=15 | 21 => {
             let mut ctx = CbCtx {
                 table: t,
-                err: *err,
+                err: if err.is_null() { std::ptr::null() } else { *err },
+                null_err: err.is_null(),
                 kind,
                 rc: 0,
                 native_text: None,
             };
             (t.iter_answer)(&mut *pp, cb16, &mut ctx as *mut _ as *mut c_void);
-            *err = ctx.err;
+            if !err.is_null() {
+                *err = ctx.err;
+            }
             let _ = &ctx.native_text;
             ctx.rc
         }
@@ -482,6 +494,7 @@ unsafe fn table_ok(t: &FnTable, kind: u8, bytes: &[u8]) -> bool {
             let mut ctx = CbCtx {
                 table: t,
                 err: std::ptr::null(),
+                null_err: false,
                 kind: 100,
                 rc: 0,
                 native_text: None,
@@ -500,6 +513,8 @@ unsafe fn table_ok(t: &FnTable, kind: u8, bytes: &[u8]) -> bool {
 enum Res16 {
     /// FAIL performed: (return code, expected text from the native error)
     Failed(i32, Option<String>),
+    /// a failing call with a NULL out-pointer performed
+    FailedNull(i32, Option<String>),
     /// READ performed: the description read, or None if this thread has not failed yet
     Read(Option<String>),
     Okay(bool),
@@ -519,10 +534,14 @@ fn exec16(sc: &Scen16) -> (Option<Violation>, u64, Stats, bool) {
     );
     let slots_for_threads = slots.clone();
     let run_tag = RUN_IN_FLIGHT.load(std::sync::atomic::Ordering::Relaxed);
+    // the pointer each live thread got from its last failure (0 = none yet), for FailPre
+    let last_ptr: std::sync::Arc<Vec<std::sync::atomic::AtomicUsize>> =
+        std::sync::Arc::new((0..k).map(|_| std::sync::atomic::AtomicUsize::new(0)).collect());
     let parked: Parked<Res16> = Parked::spawn(k, move |i| {
         let script = scripts[i].clone();
         let bytes = bytes.clone();
         let slots = slots_for_threads.clone();
+        let last_ptr = last_ptr.clone();
         let table = dnssector::fn_table();
         let mut err: *const CErr = std::ptr::null();
         let mut pc = 0usize;
@@ -538,6 +557,27 @@ fn exec16(sc: &Scen16) -> (Option<Violation>, u64, Stats, bool) {
                 match step {
                     Step16::Fail(kind) => {
                         let (rc, exp) = table_fail(&table, &mut err, kind, &bytes);
+                        last_ptr[i].store(err as usize, std::sync::atomic::Ordering::SeqCst);
+                        Res16::Failed(rc, exp)
+                    }
+                    Step16::FailNull(kind) => {
+                        let (rc, exp) = table_fail(&table, std::ptr::null_mut(), kind, &bytes);
+                        Res16::FailedNull(rc, exp)
+                    }
+                    Step16::FailPre(kind) => {
+                        // another live thread's pointer, never dereferenced by this harness
+                        let other = (1..last_ptr.len())
+                            .map(|d| last_ptr[(i + d) % last_ptr.len()].load(std::sync::atomic::Ordering::SeqCst))
+                            .find(|&p| p != 0);
+                        let mut var: *const CErr = match other {
+                            Some(p) => p as *const CErr,
+                            None => err,
+                        };
+                        let (rc, exp) = table_fail(&table, &mut var, kind, &bytes);
+                        if rc == -1 {
+                            err = var;
+                            last_ptr[i].store(err as usize, std::sync::atomic::Ordering::SeqCst);
+                        }
                         Res16::Failed(rc, exp)
                     }
                     Step16::FailOn(kind, slot) => {
@@ -571,6 +611,7 @@ fn exec16(sc: &Scen16) -> (Option<Violation>, u64, Stats, bool) {
         }
     });
     let mut last_fail: Vec<Option<String>> = vec![None; k];
+    let mut also_ok: Vec<Option<String>> = vec![None; k];
     let mut log = Fnv::new();
     let mut stats = Stats::new();
     let mut violation = None;
@@ -586,11 +627,19 @@ fn exec16(sc: &Scen16) -> (Option<Violation>, u64, Stats, bool) {
                 for n in 0..*count {
                     let b = bytes.clone();
                     // kind 255: cycle through every failure kind (many distinct descriptions)
-                    let kind = if *kind == 255 { (n % N_FAIL_KINDS as usize) as u8 } else { *kind };
+                    // kind 254: as 255, every other thread with a NULL out-pointer; 200+k: kind k
+                    // with a NULL out-pointer (a thread that fails without ever asking for the text)
+                    let (kind, null_out) = match *kind {
+                        255 => ((n % N_FAIL_KINDS as usize) as u8, false),
+                        254 => ((n % N_FAIL_KINDS as usize) as u8, n % 2 == 0),
+                        k if k >= 200 => ((k - 200) % N_FAIL_KINDS, true),
+                        k => (k, false),
+                    };
                     let h = std::thread::Builder::new().stack_size(1 << 18).spawn(move || {
                         let table = dnssector::fn_table();
                         let mut err: *const CErr = std::ptr::null();
-                        let _ = guarded(|| unsafe { table_fail(&table, &mut err, kind, &b) });
+                        let errp: *mut *const CErr = if null_out { std::ptr::null_mut() } else { &mut err };
+                        let _ = guarded(|| unsafe { table_fail(&table, errp, kind, &b) });
                     });
                     if let Ok(h) = h {
                         let _ = h.join();
@@ -613,6 +662,7 @@ fn exec16(sc: &Scen16) -> (Option<Violation>, u64, Stats, bool) {
             Res16::Failed(rc, exp) => {
                 if rc == -1 {
                     bump(&mut stats, "fault_fired:table_call_failed");
+                    also_ok[i] = None;
                     if let Some(e) = exp {
                         last_fail[i] = Some(e);
                         for j in 0..k {
@@ -630,6 +680,22 @@ fn exec16(sc: &Scen16) -> (Option<Violation>, u64, Stats, bool) {
                     bump(&mut stats, "fail_step_did_not_fail");
                 }
             }
+            Res16::FailedNull(rc, exp) => {
+                if rc == -1 {
+                    bump(&mut stats, "fault_fired:table_call_failed_null_out_pointer");
+                    // The caller declined the description. Whether that failure counts as the
+                    // thread's "most recent" one is not settled by the property: accept, at the
+                    // thread's next read, the previous description as well as this one.
+                    also_ok[i] = exp;
+                    for j in 0..k {
+                        if j != i {
+                            foreign_between[j] = true;
+                        }
+                    }
+                } else {
+                    bump(&mut stats, "fail_step_did_not_fail");
+                }
+            }
             Res16::Read(Some(text)) => {
                 bump(&mut stats, "reads");
                 if let Some(exp) = &last_fail[i] {
@@ -637,7 +703,7 @@ fn exec16(sc: &Scen16) -> (Option<Violation>, u64, Stats, bool) {
                         nontrivial = true;
                         bump(&mut stats, "probe:read_after_foreign_failure");
                     }
-                    if &text != exp {
+                    if &text != exp && also_ok[i].as_ref() != Some(&text) {
                         let whose = (0..k)
                             .find(|&j| j != i && last_fail[j].as_deref() == Some(text.as_str()))
                             .map(|j| format!(" (that is thread {}'s failure)", j))
@@ -694,11 +760,21 @@ fn gen16(rng: &mut Rng) -> Scen16 {
         let n = *rng.pick(&[2usize, 2, 3, 4, 6, N_FAIL_KINDS as usize]);
         (0..n).map(|_| rng.below(N_FAIL_KINDS as usize) as u8).collect()
     };
+    // swarm: in a third of the runs some failing calls use an unusual error out-parameter
+    let unusual_out = rng.chance(1, 3);
     let mut threads = Vec::new();
-    for _ in 0..k {
+    for ti in 0..k {
         let n = rng.range(2, 8);
         let mut s = Vec::new();
         for _ in 0..n {
+            if unusual_out && rng.chance(1, 5) {
+                s.push(if rng.bool() {
+                    Step16::FailNull(*rng.pick(&palette))
+                } else {
+                    Step16::FailPre(*rng.pick(&palette))
+                });
+                continue;
+            }
             s.push(match rng.below(10) {
                 0..=2 => Step16::Fail(*rng.pick(&palette)),
                 3 => Step16::FailOn(*rng.pick(&palette), rng.below(2) as u8),
@@ -706,18 +782,31 @@ fn gen16(rng: &mut Rng) -> Scen16 {
                 _ => Step16::Okay(rng.below(4) as u8),
             });
         }
-        // make sure a READ follows a FAIL somewhere
-        s.insert(0, Step16::Fail(*rng.pick(&palette)));
+        // make sure a READ follows a FAIL somewhere; in runs with unusual out-parameters a
+        // later thread may start with reads/succeeding calls so that its first failure comes late
+        if !(unusual_out && ti > 0 && rng.bool()) {
+            s.insert(0, Step16::Fail(*rng.pick(&palette)));
+        }
         s.push(Step16::Read);
         threads.push(s);
     }
     let lens: Vec<usize> = threads.iter().map(|t| t.len()).collect();
     let schedule = gen_schedule(rng, k, &lens);
     let mut churn = Vec::new();
-    if rng.chance(1, 12) {
+    if rng.chance(1, 12) || (unusual_out && rng.chance(1, 3)) {
         let at = rng.below(schedule.len().max(1));
         let count = if rng.chance(1, 6) { rng.range(260, 320) } else { rng.range(30, 70) };
-        let kind = if rng.bool() { 255 } else { rng.below(N_FAIL_KINDS as usize) as u8 };
+        let kind = if unusual_out && rng.bool() {
+            if rng.bool() {
+                254
+            } else {
+                200 + rng.below(N_FAIL_KINDS as usize) as u8
+            }
+        } else if rng.bool() {
+            255
+        } else {
+            rng.below(N_FAIL_KINDS as usize) as u8
+        };
         churn.push((at, count, kind));
     }
     Scen16 {
